@@ -11,9 +11,14 @@ THEN_NEW = r"let safety = then_unsafe_kw(\1)"
 def site(name, impl, nth_label):
     return {"kind": "fn", "file": CG, "name": name, "impl": impl, "ret": "r",
             "closure": {"enclosing": "codegen", "anchor_re": r"(?m)^\s*let safety\s*=", "nth": 0, "stmt": "let",
-                        "signature": "fn %s(ctx: &BindgenContext) -> (r: Option<Tok>)" % name,
+                        # signature completeness: `self` (the Var / Function being generated) is in scope of the statement
+                        "signature": "fn %s(self_: &%s, ctx: &BindgenContext) -> (r: Option<Tok>)" % (name, "Var" if "Var" in impl else "Function"),
                         "prefix": "{", "suffix": "; safety }"},
-            "subst": [(THEN, THEN_NEW, 1, "R7")],
+            # `<flag expression>.then(|| quote!(unsafe))` -> `then_unsafe_kw(<flag expression>)`: two edits around the expression, which
+            # stays source text (and may mention the item being generated)
+            "subst": [(r"re:let safety\s*=\s*", "let safety = then_unsafe_kw(", 1, "R7 bool::then (open)"),
+                      (r"re:\s*\.then\(\|\|\s*quote!\(unsafe\)\)", ")", 1, "R7 bool::then (close)"),
+                      (r"re:(?<![\w.])self(?![\w(:])", "self_", 0, "R18 captured self")],
             "ensures": [
                 # C14: the `unsafe extern` form (Rust 1.82) only when the target has it -- and always then (edition 2024 requires it)
                 "r.is_some() == ctx.spec_options().rust_features.unsafe_extern_blocks",
@@ -35,7 +40,7 @@ def offset_of_site(name, impl):
 UNIT = {
     "name": "gates",
     "env": [os.path.join(ENV, "gates_env.rs")],
-    "declared_trusted": {r"external_body": 4},
+    "declared_trusted": {r"external_body": 7},
     "items": [
         {"kind": "options_bools", "extra": ["pub rust_features: RustFeatures"]},
         site("extern_static_safety", r"^impl CodeGenerator for Var$", 0),
